@@ -1,7 +1,7 @@
 (* C31 — evaluation: the model string lexer vs lexer::tokenize on string-literal texts. *)
 From Coq Require Import List NArith ZArith Bool.
 Import ListNotations.
-Require Import RV.Model.C30_Text RV.Model.C31_Lexer.
+Require Import RV.Model.C30_Text RV.Model.C31_Lexer RV.Model.C30_Value RV.Model.C31_Parser.
 Open Scope N_scope.
 
 Definition xexp_eqb (a b : xexp) : bool :=
@@ -40,10 +40,25 @@ Definition lres_eqb (a b : lres) : bool :=
   | LErr k s e, LErr k' s' e' => lkind_eqb k k' && N.eqb s s' && N.eqb e e'
   | _, _ => false
   end.
-Inductive case := CNone | CString (text : list N) (out : sres) | CLex (text : list N) (out : lres).
+(* the implementation's Parser::parse_manifest on a token list: number of instructions or the error kind *)
+Inductive mres := MOk (n : nat) | MErr (e : perr) | MPanic.
+Definition perr_eqb (a b : perr) : bool :=
+  match a, b with
+  | PEof, PEof | PUnexpected, PUnexpected | PMaxDepth, PMaxDepth | PNumValues, PNumValues | PNumTypes, PNumTypes | PUnmodelled, PUnmodelled => true
+  | _, _ => false
+  end.
+Definition mres_agrees (m : pres (list (list N * list ast))) (r : mres) : bool :=
+  match m, r with
+  | POk l [], MOk n => Nat.eqb (length l) n
+  | PErr e, MErr e' => perr_eqb e e'
+  | _, _ => false
+  end.
+Inductive case := CNone | CString (text : list N) (out : sres) | CLex (text : list N) (out : lres)
+| CManifest (ts : list tok) (res : mres).
 Definition check (c : case) : bool :=
   match c with
   | CNone => true
   | CString text out => sres_eqb (lex_string_literal text) out
   | CLex text out => lres_eqb (tokenize text) out
+  | CManifest ts res => mres_agrees (parse_manifest (map (fun x => fst (fst x)) ts)) res
   end.
